@@ -38,6 +38,24 @@ CHECKS.update({
          "DESIGN.md §3 C17"),
 })
 
+CHECKS.update({
+ "C11": ("E3 pure driver + E5 race detector + E6 porcupine", "exploration",
+         "runtime monitor: the statement's clauses evaluated on routing-table snapshots (hook VerifEntries) after every operation of exhaustively enumerated and seeded operation sequences; porcupine linearizability against the sequentially replayed real table; Go race detector",
+         "All sequences over a 17-operation alphabet (peer/gossip adds with system-producible paths, next-hop and disconnect removals, ageing+cleanup) up to a bounded length on a small universe for EntriesPerPrefix 1..3, and seeded 3000-10000-operation runs over ~1000 destinations under the real per-address prefix configs; after every operation lookups (exact destination, peer first, best-first), added/not-added semantics, peer retention, per-destination and per-prefix bounds, expiry and removal post-conditions are checked.",
+         "Ageing uses the hook VerifAgeEntries (moves expiries by >= 30 min); sequences beyond the bound are sampled.",
+         "DESIGN.md §3 C11"),
+ "C15": ("E3 pure driver + E5 race detector + E6 porcupine", "exploration",
+         "runtime monitor: uniqueness/contiguity/real-time-order check of (key epoch, class, sequence) records from concurrent Out calls across the 32-bit wrap (porcupine fetch-and-increment model, Go race detector); epoch-aware acceptance oracle over in-order and bounded-reordering deliveries of real sealed frames across the wrap; duplex replay/uniqueness check",
+         "Concurrent senders on one session with the counter preset just before the wrap; 600-frame histories across the wrap at 40 (quick) / 299 (thorough) offsets, in order and under displacement<=8 permutations, for end-to-end and link frames: every frame's acceptance is compared with 'receiver is (or thereby moves) in the frame's key epoch', keys must agree afterwards, accepted and pre-wrap frames never unseal again; duplex traffic while one direction wraps.",
+         "The wrap is reached through the repository's EncryptionSessionTestHelper preset; goroutine interleavings are sampled by the scheduler.",
+         "DESIGN.md §3 C15"),
+ "C19": ("E3 pure driver + real miekg server on loopback UDP", "exploration",
+         "runtime monitor: reference resolver (source precedence + .myco/type/class filter) compared with Server.Lookup, recorded ServeDNS replies and wire replies over seeded colliding configurations; metamorphic mapping insertion/removal; worker-panic alert monitor",
+         "Seeded configurations with names deliberately colliding across built-in, resolve, forbidden, friend and mapping sources; every name in case/trailing-dot variants x 45 types x 6 classes plus look-alike names is resolved through Lookup, ServeDNS and (every 10th config) the real server on a loopback socket including malformed and empty-question packets; rcode and every returned address must equal the reference.",
+         "Friend names lower-case; unicode names only in punycode form; empty-question packets only via the wire (miekg accept filter).",
+         "DESIGN.md §3 C19"),
+})
+
 NOT_YET = "check not implemented yet in this revision of /verif (work in progress; see DESIGN.md §8)"
 
 def main():
